@@ -558,6 +558,9 @@ class SNum:
     def arctanh(self):
         return arctanh(self)
 
+    def arcsinh(self):
+        return arcsinh(self)
+
     def conjugate(self):
         return self
 
@@ -1163,6 +1166,15 @@ def _sign_axioms_pm_pi(a, c, s):
     run.axioms_used.add("sign of cos/sin on (-pi, pi]")
 
 
+def _sign_axioms_facts(run, label, a, c, s):
+    """same relations as _sign_axioms_pm_pi, added as path facts (used for angles that are not fresh variables)"""
+    pi = run.pi
+    for f in [(s > 0) == z3.And(a > 0, a < pi), (s < 0) == (a < 0), z3.Implies(z3.And(s == 0, c > 0), a == 0),
+              z3.Implies(z3.And(s == 0, c < 0), a == pi), (c > 0) == z3.And(a > -pi / 2, a < pi / 2), (c == 0) == z3.Or(a == pi / 2, a == -pi / 2)]:
+        run.add_fact("axiom", label, f)
+    run.axioms_used.add("sign of cos/sin on (-pi, pi]")
+
+
 def arctan2(y, x):
     if isinstance(y, Dual) or isinstance(x, Dual):
         return Dual.arctan2(y, x)
@@ -1304,6 +1316,23 @@ def sinh(x):
     if not isinstance(x, SNum):
         return math.sinh(x)
     return SReal(coshsinh(real_expr(x))[1])
+
+
+@_elementwise
+def arcsinh(x):
+    if isinstance(x, Dual):
+        a = arcsinh(x.v)
+        return Dual(a, x.d / cosh(a))
+    if not isinstance(x, SNum):
+        return math.asinh(x)
+    run = cur()
+    ex = real_expr(x)
+    h = run.fresh("asinh")
+    ch, sh = coshsinh(h)
+    run.add_def(h, sh == ex)
+    run.add_def(sh, sh == ex)
+    run.axioms_used.add("arcsinh(x)=h with sinh h = x")
+    return SReal(h)
 
 
 @_elementwise
